@@ -5,6 +5,7 @@ import (
 	"encoding/binary"
 	"encoding/hex"
 	"fmt"
+	"io"
 )
 
 type Reader struct {
@@ -78,12 +79,32 @@ func (p *Reader) Bytes() []byte {
 	return p.buffer.Bytes()
 }
 
+// short reports (and records) that fewer than n bytes are left, before anything is
+// allocated for them: n may come from a length field of an untrusted packet.
+func (p *Reader) short(n int, op string) bool {
+	avail := p.buffer.Len()
+	if avail >= n {
+		return false
+	}
+	if avail == 0 {
+		p.opError = newPacketError(io.EOF, op)
+		return true
+	}
+	p.buffer.Next(avail)
+	p.opError = newPacketError(fmt.Errorf("read unexpected length"), "ReadBytes")
+	return true
+}
+
 func (p *Reader) ReadCStringN(n int) string {
 	if p.opError != nil {
 		return ""
 	}
 
 	if n <= 0 {
+		return ""
+	}
+
+	if p.short(n, "ReadCStringN read") {
 		return ""
 	}
 
@@ -113,6 +134,10 @@ func (p *Reader) ReadCStringNWithoutTrim(n int) string {
 	}
 
 	if n <= 0 {
+		return ""
+	}
+
+	if p.short(n, "ReadCStringN read") {
 		return ""
 	}
 
@@ -155,6 +180,10 @@ func (p *Reader) ReadNBytes(n int) []byte {
 	}
 
 	if n <= 0 {
+		return nil
+	}
+
+	if p.short(n, "ReadCStringN read") {
 		return nil
 	}
 
